@@ -350,7 +350,13 @@ func (j *judge) judgePlan(plan *ReqPlan, o Outcome, group []*ReqPlan, seed uint6
 			j.add("C02", "C02|"+o.Engine+"|cross-talk", "cross-talk", e.Detail, o.Engine, group, plan, seed, outs)
 		}
 	}
-	if o.Class == "crashed" {
+	callbackPanics := plan.AuthDefault.Kind == "panic"
+	for _, d := range plan.Auth {
+		if d.Kind == "panic" {
+			callbackPanics = true
+		}
+	}
+	if o.Class == "crashed" && !callbackPanics {
 		// a panicking handler is neither "422 without invoking the method" nor a delivered call
 		j.add("C05", "", "handler-panic", fmt.Sprintf("%s %s (%s): the generated handler panicked instead of answering: %s", plan.Verb, plan.URL, reqClass(plan), clip(o.Panic, 300)), o.Engine, group, plan, seed, outs)
 		return
@@ -360,7 +366,26 @@ func (j *judge) judgePlan(plan *ReqPlan, o Outcome, group []*ReqPlan, seed uint6
 		switch {
 		case ex.Route < 0:
 			if len(o.Calls) > 0 {
-				j.add("C02", fmt.Sprintf("C02|%s|%s|served-unannotated", o.Engine, plan.Class), "served-unannotated",
+				class := "served-unannotated"
+				// is the path an extension of the reached route's template, which ends in a parameter?
+				pathOnly, _, _ := strings.Cut(plan.URL, "?")
+				reqSegs := strings.Split(strings.TrimPrefix(pathOnly, "/"), "/")
+				for ri := range j.routes {
+					rr := j.routes[ri]
+					if j.proj.OpPrefix+rr.OpID != o.Calls[0].Op || len(rr.Segs) == 0 || !projgen.IsParamSeg(rr.Segs[len(rr.Segs)-1]) || len(reqSegs) <= len(rr.Segs) {
+						continue
+					}
+					prefixOK := true
+					for k, ts := range rr.Segs[:len(rr.Segs)-1] {
+						if !projgen.IsParamSeg(ts) && ts != reqSegs[k] {
+							prefixOK = false
+						}
+					}
+					if prefixOK {
+						class = "served-longer-path-below-trailing-param"
+					}
+				}
+				j.add("C02", "", class,
 					fmt.Sprintf("%s %s is not an annotated verb/path but reached %s", plan.Verb, plan.URL, o.Calls[0].Op), o.Engine, group, plan, seed, outs)
 			}
 		default:
@@ -588,10 +613,10 @@ func (j *judge) judgeReplicas(plan *ReqPlan, outs map[string]Outcome, group []*R
 			continue
 		}
 		// plurality (ties broken by value text for determinism)
-		best := ""
+		best, haveBest := "", false
 		for v, es := range count {
-			if best == "" || len(es) > len(count[best]) || (len(es) == len(count[best]) && v < best) {
-				best = v
+			if !haveBest || len(es) > len(count[best]) || (len(es) == len(count[best]) && v < best) {
+				best, haveBest = v, true
 			}
 		}
 		var dissent []string
